@@ -72,7 +72,10 @@ def origin(e):
     while tb is not None:
         fr = tb.tb_frame
         slf = fr.f_locals.get("self")
-        if fr.f_code.co_filename.endswith("_mx_classes.py") and type(slf).__name__.startswith("_c_"):
+        co = fr.f_code
+        # a method proper (self is its first argument), not a lambda / nested function closing over self
+        if (co.co_filename.endswith("_mx_classes.py") and type(slf).__name__.startswith("_c_")
+                and co.co_argcount and co.co_varnames[0] == "self"):
             found = [fr.f_code.co_filename, type(slf).__name__, fr.f_code.co_name]
         tb = tb.tb_next
     return found
